@@ -639,6 +639,26 @@ func (env *Env) trCall(e *E) Val {
 			o = env.hget(env.old, "alloc")
 		}
 		return Val{S: "(> " + r + " " + o + ")", Sort: "Bool"}
+	case "oldObjectsUnchanged": // oldObjectsUnchanged(comp): objects that existed at entry are unchanged in comp
+		if len(e.A) != 1 || e.A[0].K != "id" {
+			sfail("oldObjectsUnchanged(component)")
+		}
+		c := e.A[0].S
+		if c == "bytes" {
+			c = m.compSliceHeap("Int")
+		}
+		if _, ok := m.comps[c]; !ok {
+			sfail("unknown heap component %s", c)
+		}
+		cur := env.heap(c)
+		n := *env
+		n.st = env.old
+		init := n.heap(c)
+		a0 := n.heap("alloc")
+		if cur == init {
+			return Val{S: "true", Sort: "Bool"}
+		}
+		return Val{S: fmt.Sprintf("(forall ((fr Int)) (! (=> (<= fr %s) (= (select %s fr) (select %s fr))) :pattern ((select %s fr))))", a0, cur, init, cur), Sort: "Bool"}
 	case "mapdom": // mapdom(m, k): key present
 		x, k := arg(0), arg(1)
 		if mp, ok := x.G.Underlying().(*types.Map); ok {
